@@ -364,3 +364,8 @@ PROPS['C17']['explanation'] += (' END TO END: besides the route table (regenerat
     'request dispatch of examples/oci/src/router.rs (seeded change C17-e).')
 
 NOT_APPLICABLE = {}
+
+# regenerated walks of the seven child lists (Gen/Shapes.v, Proofs/ShapesP.v)
+PROPS['C05']['explanation'] += (' REGENERATED from src/node/optimize.rs on this run (Gen/Shapes.v): C05_optimize_covers_every_list - Node::optimize returns early exactly on a clean node, recurses into all seven child lists, sorts all seven, refreshes both shortcut flags and clears the dirty mark, as Model/Ops.v optimize does.')
+PROPS['C09']['explanation'] += (' REGENERATED from src/node/delete.rs on this run (Gen/Shapes.v): C09_prune_and_merge_tests_cover_every_list - is_empty and is_compressible test the data and all seven child lists, as Model/Ops.v is_empty / is_compressible do.')
+PROPS['C15']['explanation'] += (' REGENERATED from src/node/display.rs on this run (Gen/Shapes.v): C15_printer_walks_the_seven_lists_in_kind_order - debug_node walks the seven child lists in the order of kinds of the model printer, every child through `count -= 1; debug_node(.., count == 0)?`, `count` starting as the sum of the seven lengths.')
